@@ -95,6 +95,11 @@ def _pair(r):
         # times of day close to midnight so that the shift changes the calendar date
         f1[3:] = r.choice([[0, 30, 0, 0], [1, 0, 0, 0], [23, 30, 0, 0], [0, 0, 0, 0], [22, 15, 0, 1]])
         f2[3:] = r.choice([[0, 30, 0, 0], [1, 0, 0, 0], [23, 30, 0, 0], [0, 0, 0, 0], f1[3:]])
+    if kind == "mixed" and z1 != z2 and r.random() < 0.2:
+        # the same instant (or one just after it) seen from the second zone: local dates may differ
+        ia_ = tzdb.wall_to_instants(z1, f1)
+        if ia_:
+            f2 = tzdb.render(z2, ia_[-1] + r.choice([0, 0, 0, 1, 10**6, 3600 * 10**6, 86400 * 10**6]))[0]
     if kind == "zone" and r.random() < 0.25:
         # start on (either occurrence of) a repeated wall time of the zone, end shortly after or later
         trans = [t for t in tzdb.transitions(z1) if t[2] < t[1] and 1973 <= tzdb.us_to_fields(t[0] * 10**6)[0] <= 2036]
@@ -302,11 +307,27 @@ def l2_check(run):
     return viols, {"l2_evals": n}
 
 
+def _endpoint_value(spec):
+    """(wall fields, UTC offset) of the endpoint as pendulum constructs it: a skipped wall time is
+    moved by the width of the gap (forward for fold=1, backward for fold=0)."""
+    import datetime as _dt
+
+    z, f, fold = spec["tz"], spec["f"], spec.get("fold", 1)
+    ts = tzdb.wall_to_instants(z, f)
+    if ts:
+        t = ts[-1] if fold else ts[0]
+    else:
+        o = _dt.datetime(*f, tzinfo=tzdb.tzinfo(z), fold=1 if fold == 0 else 0).utcoffset()
+        t = tzdb.naive_us(f) - (o.days * 86400 + o.seconds) * 10**6
+    fields, off, _ = tzdb.render(z, t)
+    return t, fields, off
+
+
 def _crosses_month(spec):
     """is the endpoint's UTC calendar date different from its local one?"""
     try:
-        t = tzdb.wall_to_instants(spec["tz"], spec["f"])[0]
-        return tzdb.us_to_fields(t)[:3] != spec["f"][:3]
+        t, fields, _ = _endpoint_value(spec)
+        return tzdb.us_to_fields(t)[:3] != fields[:3]
     except Exception:
         return None
 
@@ -318,10 +339,11 @@ def _rust_shift_edge(spec):
     of 0 / days_in_month+1 is carried as is.)  This is the input class of the open known
     finding; a disagreement outside it is a new violation."""
     try:
-        t = tzdb.wall_to_instants(spec["tz"], spec["f"])
-        off = int(tzdb.render(spec["tz"], t[-1] if spec.get("fold", 1) else t[0])[1])
+        _, fields, off = _endpoint_value(spec)
+        off = int(off)
     except Exception:
         return None
+    spec = {"f": fields}
     if off == 0:
         return False
     y, mo, d, h, mi, se = spec["f"][:6]
